@@ -442,9 +442,12 @@ theorem compileDsl_toDsl (n : Nat) (el : Elem α) : compileDslElem n (toDsl el) 
 /-- mechanism fact, probed on every run: does the generated `memoize` normalise its time argument? -/
 structure Cfg where
   memoNormalises : Bool
+  /-- wave 11: `SdSimulation.__simulate` walks the output grid with the dt the (transpiled) model integrates with
+  (`self.mod.dt`, which scenario run specs overwrite), not with a copy taken before the run specs were applied -/
+  xmileRunGridUsesModelDt : Bool := true
 deriving DecidableEq, Repr
 
-def Cfg.good (c : Cfg) : Bool := c.memoNormalises
+def Cfg.good (c : Cfg) : Bool := c.memoNormalises && c.xmileRunGridUsesModelDt
 
 namespace Ctx
 /-- time representations on which the code with mechanism `c` runs: facts about the labels themselves
@@ -473,8 +476,26 @@ end Ctx
 
 /-- C04 at full strength: for every carrier, time representation admitted by the mechanism, acyclic
 stock/flow graph (XMILE code or DSL code), element and grid index. -/
-def C04_full (c : Cfg) : Prop :=
+def C04_euler (c : Cfg) : Prop :=
   ∀ (T α : Type) (X : Ctx T α), X.Admissible c → X.Acyclic → X.RunsGraph → X.EulerExact
+
+/-- times of the rows of a run (`SdSimulation.__simulate`): `timerange(start, stop, dt?, exclusive=False)` where `dt?` is the dt
+the model integrates with (`dt`) when the fact holds, else the dt the simulation object copied at construction (`dtFile`, the
+`<dt>` of the XMILE file when a scenario overrides it) -/
+def rowTimes (c : Cfg) (fl : ℚ → ℚ) (fuel : ℕ) (start stop dt dtFile : ℚ) (prec : ℕ) : Option (List ℚ) :=
+  Bptk.C05.timerangeP fl fuel start stop (if c.xmileRunGridUsesModelDt then dt else dtFile) prec false
+
+/-- the rows of a run are labelled by the grid of the run specs the model integrates with: for every float model, every
+decimal grid (start, dt), every number of steps n (C05's budget) and whatever dt the file had, the row times are exactly the
+labels `0 … n` of that grid -/
+def C04_rows (c : Cfg) : Prop :=
+  ∀ (F : Bptk.C05.Fl) (G : Bptk.C05.Grid) (n : ℕ) (r : ℚ), Bptk.C05.Budget F G (n + 1) r → ∀ fuel, n + 2 ≤ fuel → ∀ dtFile : ℚ,
+    rowTimes c F.fl fuel (G.s F) (Bptk.C05.label F G n) (G.h F) dtFile G.p
+      = some ((List.range (n + 1)).map (fun i : ℕ => Bptk.C05.label F G (i : ℤ)))
+
+/-- C04 at full strength: Euler-exact values (`C04_euler`) on rows labelled by the grid of the integration run specs
+(`C04_rows`) -/
+def C04_full (c : Cfg) : Prop := C04_euler c ∧ C04_rows c
 
 theorem code_of_runsGraph (h : X.RunsGraph) :
     ∀ n el, X.M.elems[n]? = some el → X.code n = some (compileElem n el) := by
@@ -503,8 +524,13 @@ theorem gridOK_of_admissible {c : Cfg} (h : X.Admissible c) (hc : c.memoNormalis
   ⟨h.normLabel, h.prevLabel hc, h.start0, h.startS, h.keyInj, h.valLabel⟩
 
 theorem C04_full_of_good (c : Cfg) (h : c.good = true) : C04_full c := by
-  intro T α X hadm hA hR
-  exact xmile_run_eq_euler (gridOK_of_admissible hadm h) hA hR
+  simp only [Cfg.good, Bool.and_eq_true] at h
+  refine ⟨?_, ?_⟩
+  · intro T α X hadm hA hR
+    exact xmile_run_eq_euler (gridOK_of_admissible hadm h.1) hA hR
+  · intro F G n r B fuel hf dtFile
+    simp only [rowTimes, h.2, if_true]
+    exact Bptk.C05.timerange_spec F G n r B fuel hf
 
 /-- whatever the mechanism: if `t - dt` from a label is (after `norm`) the previous label — exact
 arithmetic, e.g. a dyadic dt with representable grid — the run is Euler-exact -/
@@ -624,7 +650,7 @@ theorem wX_admissible (c : Cfg) (hc : c.memoNormalises = false) : wX.Admissible 
 /-- with raw float keys the full property fails: S(0.4) takes five Euler steps -/
 theorem C04_witness_raw_keys (c : Cfg) (h : c.memoNormalises = false) : ¬ C04_full c := by
   intro hfull
-  obtain ⟨v, he, hr⟩ := hfull Float Int wX (wX_admissible c h) wX_acyclic (Or.inl rfl) 0 4 (by decide) (by decide)
+  obtain ⟨v, he, hr⟩ := hfull.1 Float Int wX (wX_admissible c h) wX_acyclic (Or.inl rfl) 0 4 (by decide) (by decide)
   have h4 : euler wX.C wX.M wX.tv 0 4 = some 4 := by decide +kernel
   have h5 : runVal wX.C wX.ts wX.M.dtv wX.code 40 [] 0 (wX.label 4) = some 5 := by decide +kernel
   have hr' := hr 40 [] (by decide) memoOK_nil
@@ -1591,6 +1617,35 @@ theorem lerp_bounded_witness :
 
 #print axioms lerpRows_sound
 #print axioms lerp_bounded_witness
+
+
+/-! ### Wave 11: rows from another dt than the integration uses -/
+
+/-- **witness**: `<dt>0.25</dt>` in the XMILE file, scenario run specs start 0, stop 2, dt 0.1 (exact arithmetic, C05's grid
+`G01`): when the simulation walks the grid with the file's dt, the run has 9 rows where the grid of the run specs has 21 -/
+theorem rows_stale_dt_witness :
+    (rowTimes { memoNormalises := true, xmileRunGridUsesModelDt := false } Bptk.C05.Fl.exact.fl 22 (Bptk.C05.G01.s Bptk.C05.Fl.exact)
+        (Bptk.C05.label Bptk.C05.Fl.exact Bptk.C05.G01 ((20 : ℕ) : ℤ)) (Bptk.C05.G01.h Bptk.C05.Fl.exact) (1 / 4) Bptk.C05.G01.p).map List.length = some 9 ∧
+    ((List.range (20 + 1)).map (fun i : ℕ => Bptk.C05.label Bptk.C05.Fl.exact Bptk.C05.G01 (i : ℤ))).length = 21 := by
+  refine ⟨?_, by simp⟩
+  decide +kernel
+
+/-- the output grid walked with a stale dt: the property fails -/
+theorem C04_witness_run_grid (c : Cfg) (h : c.xmileRunGridUsesModelDt = false) : ¬ C04_full c := by
+  intro hfull
+  have h2 := hfull.2 Bptk.C05.Fl.exact Bptk.C05.G01 20 0 (budget_exact_G01 21) 22 (by norm_num) (1 / 4)
+  have hw := rows_stale_dt_witness.1
+  have e : rowTimes c Bptk.C05.Fl.exact.fl 22 (Bptk.C05.G01.s Bptk.C05.Fl.exact)
+      (Bptk.C05.label Bptk.C05.Fl.exact Bptk.C05.G01 ((20 : ℕ) : ℤ)) (Bptk.C05.G01.h Bptk.C05.Fl.exact) (1 / 4) Bptk.C05.G01.p
+      = rowTimes { memoNormalises := true, xmileRunGridUsesModelDt := false } Bptk.C05.Fl.exact.fl 22 (Bptk.C05.G01.s Bptk.C05.Fl.exact)
+      (Bptk.C05.label Bptk.C05.Fl.exact Bptk.C05.G01 ((20 : ℕ) : ℤ)) (Bptk.C05.G01.h Bptk.C05.Fl.exact) (1 / 4) Bptk.C05.G01.p := by
+    simp [rowTimes, h]
+  rw [e] at h2
+  rw [h2] at hw
+  simp at hw
+
+#print axioms C04_witness_run_grid
+#print axioms rows_stale_dt_witness
 
 #print axioms xmile_run_eq_euler
 #print axioms C04_full_of_good
